@@ -331,6 +331,7 @@ class Objects:
 STRING_POOL = [
     "", "a", "x y", "Ab_1", "id", "kind", "command", "range", "location", "uri", "snippet",
     "ünï", "日本語", "\U0001F600", "\u0000", "line\nbreak", "\t", "\"q\"", "null", "true", "0",
+    "long " * 2000,   # sizes: a 10 kB string
 ]
 URI_POOL = ["file:///a.py", "file:///c%3A/dir/b.txt", "untitled:Untitled-1", "https://example.com/x?y=1#z", ""]
 INT_BOUNDS = [INT_MIN, INT_MIN + 1, -1, 0, 1, INT_MAX - 1, INT_MAX]
